@@ -7,6 +7,7 @@ import (
 	"math/rand"
 	"os"
 	"strings"
+	"time"
 
 	"github.com/go-task/task/v3"
 	"github.com/go-task/task/v3/verifharness/common"
@@ -94,9 +95,13 @@ func Main(args []string) {
 		for i := 0; i < o.N; i++ {
 			c := &Case{Seed: r.Int63(), Procs: 1, Stream: "acyclic"}
 			cr := rand.New(rand.NewSource(c.Seed))
-			if o.Extra["cyclic"] != "" && i%40 == 39 {
+			if o.Extra["cyclic"] != "" && i%20 == 19 {
 				c.Stream = "cyclic"
-				c.Prog = Gen(cr, GenOpts{MaxTasks: 4, Cyclic: true, NoGuards: true, MaxActs: 30})
+				if cr.Intn(3) == 0 {
+					c.Prog = Gen(cr, GenOpts{MaxTasks: 4, Cyclic: true, NoGuards: true, MaxActs: 30})
+				} else {
+					c.Prog = DirectedCyclic(cr)
+				}
 				c.Prog.maxSteps = 8*c.Prog.Cfg.MaxCall + 2000
 			} else if i%5 == 1 {
 				c.Stream = "directed"
@@ -165,11 +170,11 @@ func Main(args []string) {
 	for i, c := range cases {
 		var out *RunOut
 		var err error
-		if c.Stream == "cyclic" && c.Prog.maxSteps == 0 {
-			c.Prog.maxSteps = 8*c.Prog.Cfg.MaxCall + 2000
-		}
 		if c.pre != nil {
 			out = c.pre
+		} else if c.Stream == "cyclic" {
+			// judged from outside, on the real binary in a child process
+			out, err = RunCyclicCLI(c.Prog, 40*time.Second)
 		} else {
 			pf := c.Prefix
 			if c.Stream == "systematic" && pf == nil {
@@ -212,16 +217,7 @@ func Main(args []string) {
 			// cyclic programs are judged here: they must end with the "called too many times" class
 			// (204, or 201 wrapping it when the cycle goes through task-call commands); their traces
 			// (thousands of events with call paths of depth 1000) are not shipped to Coq
-			spun := false
-			cnt := map[int]int{}
-			for _, ob := range out.Obs {
-				if ob.Arr && ob.Ev.Kind == "started" {
-					cnt[ob.Ev.T]++
-					if cnt[ob.Ev.T] >= c.Prog.Cfg.MaxCall-1 {
-						spun = true
-					}
-				}
-			}
+			spun := out.Steps >= c.Prog.Cfg.MaxCall-1 // probe lines printed
 			obs.Count(fmt.Sprintf("cyclic-spun:%v", spun))
 			if spun && !out.Overrun && out.Result != "(RErr (ECode 204))" && out.Result != "(RErr (ETaskRun None))" {
 				obs.ImplFails = append(obs.ImplFails, common.ImplFail{Case: i, Kind: "cycle-wrong-result", Msg: out.Result + " " + out.ResultStr})
@@ -230,7 +226,7 @@ func Main(args []string) {
 			if out.Overrun {
 				// far more scheduler steps than MaximumTaskCall calls can take: the call limit did not end the cycle
 				obs.ImplFails = append(obs.ImplFails, common.ImplFail{Case: i, Kind: "cycle-not-ended-by-call-limit",
-					Msg: fmt.Sprintf("cyclic program still running after %d scheduler steps (MaximumTaskCall = %d)", c.Prog.maxSteps, c.Prog.Cfg.MaxCall)})
+					Msg: fmt.Sprintf("cyclic program (MaximumTaskCall = %d): %s", c.Prog.Cfg.MaxCall, out.Stacks)})
 			}
 			out.Obs = nil
 			out.Schedule = nil
@@ -302,7 +298,7 @@ func Main(args []string) {
 	}
 	obs.Cases += len(cases)
 	fmt.Fprintf(&sb, "Definition cases : list ecase := %s.\n", cg.List(items))
-	names := []string{"C01", "calls", "waits", "C02", "C03", "C03s", "C06", "C07", "C13", "C14", "eager"}
+	names := []string{"C01", "calls", "waits", "C02", "C03", "C03s", "C06", "C07", "C13", "C13s", "C14", "eager"}
 	for _, n := range names {
 		fmt.Fprintf(&sb, "Definition R_%s := Eval vm_compute in failures (ecase_mon_%s) cases.\nPrint R_%s.\n", n, n, n)
 	}
